@@ -217,6 +217,8 @@ class FromEntropyHex:
 
 
 def payload78(B):
+    B.hint("version", list(SLIP132))
+    B.hint("depth", [0, 1, 127, 128, 129, 254, 255])
     ver = B.int("version", 0, 2 ** 32)
     depth = B.int("depth", 0, 256)
     fp = B.bytes("fp", 4)
